@@ -115,6 +115,15 @@ func (h *Host) RecS(id int64, s string, b bool) string {
 }
 func (h *Host) GetI64() int64 { return h.I64 }
 
+// Repoint lets the pointer field Pn point to ANOTHER object (a copy whose X is larger by 1000): what a rule
+// reads through H.Pn afterwards is the new object.
+func (h *Host) Repoint() int64 {
+	n := *h.Pn
+	n.X += 1000
+	h.Pn = &n
+	return n.X
+}
+
 // Fixture is one complete set of injected objects. Two fixtures built from the same seed
 // are identical; one goes to gengine, the other is the reference interpreter's host state.
 type Fixture struct {
@@ -176,7 +185,7 @@ var F64Pool = []float64{0, 1, -1, 0.5, -0.5, 2, 3, 1.5, 2.25, 10, 0.1, 100.75, 9
 
 var F32Pool = []float32{0, 1, -1, 0.5, 1.5, 2.25, -2.5, 16777216, 3.4028234663852886e38, 1e-3, 100.75, 65536}
 
-var StrPool = []string{"", "a", "b", "ab", "abc", "B", "Z", "z", "hello world", "10", "9", "é", "a b", "aa"}
+var StrPool = []string{"", "a", "b", "ab", "abc", "B", "Z", "z", "hello world", "10", "9", "é", "a b", "aa", "50%", "%d of %s", "%"}
 
 func pickI(r *rand.Rand, bits uint) int64 {
 	for {
